@@ -6,6 +6,16 @@
 //! sets for every operation. Each case runs on the real code and is compared with the
 //! reference parsers / arithmetic of `refsem::ext` (i128, own calendar, own CIDR math).
 //!
+//! Bounds (quick | thorough), both exhaustive over their bound:
+//!   decimal   all strings <= 6 | <= 7 over {0,1,9,-,.,+,space,a}  + ~3000 boundary templates
+//!   duration  all strings <= 6 | <= 7 over {0,1,9,d,h,m,s,-}      + ~2300 boundary templates
+//!   ip        all strings <= 6 | <= 7 over {0,1,f,:,.,/}; octet grid 13 x 5|13 x 5|13 x 13 x
+//!             10 prefixes; 59 IPv6 x 25 prefix and 37 IPv4 x 30 prefix templates; mutations
+//!   datetime  product grid year 4|8 x month 5 x day 7 x time 28 x ms 5 x zone 10; month ends,
+//!             offset table, 1-char deletions / substitutions / insertions of 21 valid strings
+//!   operations over 16 datetimes, 28 durations, 15 decimals, 59 ips: all pairs, and triples
+//!             (third operand every 3rd | every value for the ip and spelling triples)
+//!
 //! Arrival paths of a constructor string:
 //!   text   `<cedar_policy_core::ast::Expr as FromStr>` + `bind::core_eval`, value read through
 //!          `bind::abs_value` (Debug of the internal representation, not the parser under test)
@@ -650,7 +660,7 @@ fn sweep(ctx: &Ctx, ty: usize, alpha: &[char], max: usize) -> u64 {
         for idx in ci * chunk..((ci + 1) * chunk).min(total) {
             let c = Case::Ctor { ty, s: nth_string(alpha, idx), near: false };
             run_case(ctx, &c, &p, &mut l);
-            if idx == 0 || idx + 1 == total || idx == total / 2 {
+            if idx == total / 2 {
                 ctx.sample(json!({"case": c.text()}));
             }
         }
@@ -957,7 +967,8 @@ pub fn gen_ctor(tier: Tier) -> Vec<Case> {
 // ---------------------------------------------------------------------------------------------
 
 fn dt_values() -> Vec<i64> {
-    vec![i64::MIN, i64::MIN + 1, TODATE_MIN - 1, TODATE_MIN, TODATE_MIN + 1, -DAY - 1, -DAY, -DAY + 1, -1, 0, 1, DAY - 1, DAY, DAY + 1, i64::MAX - 1, i64::MAX]
+    // simplest first, so that the first counterexample of a fingerprint tends to be small
+    vec![0, 1, -1, DAY - 1, DAY, DAY + 1, -DAY + 1, -DAY, -DAY - 1, TODATE_MIN + 1, TODATE_MIN, TODATE_MIN - 1, i64::MAX - 1, i64::MAX, i64::MIN + 1, i64::MIN]
 }
 
 fn dur_values() -> Vec<i64> {
@@ -967,7 +978,7 @@ fn dur_values() -> Vec<i64> {
 }
 
 fn dec_values() -> Vec<i64> {
-    vec![i64::MIN, i64::MIN + 1, -10_001, -10_000, -9_999, -5_000, -1, 0, 1, 5_000, 9_999, 10_000, 10_001, i64::MAX - 1, i64::MAX]
+    vec![0, 1, -1, 5_000, -5_000, 9_999, 10_000, 10_001, -9_999, -10_000, -10_001, i64::MAX - 1, i64::MAX, i64::MIN + 1, i64::MIN]
 }
 
 fn ip_values() -> Vec<&'static str> {
